@@ -97,7 +97,13 @@ TraceEndPkg ==
                       THEN {"C05.package_follows_the_plan"} ELSE {})
          \* a package that was built although the list should have been rejected is still held to the container rules
          strayStruct == IF built /\ ~expect THEN StructClauses(f, c, ScriptsConfigured(f, c), evs) \cup FileNameClauses(f, c, p.fname, evs) ELSE {}
-         all == resultCl \cup pay[1] \cup pay[2] \cup other \cup c13 \cup c13pk \cup c05 \cup strayStruct
+         \* ... and to the registration of what it declares as configuration: the config-typed entries on their own
+         strayConf == IF built /\ ~expect
+                      THEN LET cc == [c EXCEPT !.entries = SelectSeq(c.entries, LAMBDA e : e.type \in ConfigTypes)]
+                               pm == PlanFor(cc, Tree, f)
+                           IN IF pm[1] = "ok" THEN ConfClauses(f, pm[2], evs) \cap {"C08.conf_registered"} ELSE {}
+                      ELSE {}
+         all == resultCl \cup pay[1] \cup pay[2] \cup other \cup c13 \cup c13pk \cup c05 \cup strayStruct \cup strayConf
      IN /\ viol' = AddViol({ <<cid, pkgLine, n>> : n \in { x \in all : ~IsDoc(x) } })
         /\ drift' = AddDrift({ <<cid, pkgLine, n>> : n \in { x \in all : IsDoc(x) } })
         /\ merr' = IF expect /\ ~PlanInvOf(CtxOf(c, Tree, f), m) THEN merr \cup {<<cid, pkgLine, "PlanInv">>} ELSE merr
